@@ -56,11 +56,21 @@ def check_tseytin(case):
     c = build.build(nl, case['route'])
     sel = case['sel']
     if sel is None:
-        clauses = [list(x) for x in tseytin_transformation(c).get_raw()]
+        cnf_obj = tseytin_transformation(c)
         sel_idx = list(range(len(nl['outputs'])))
     else:
-        clauses = [list(x) for x in tseytin_transformation(c, list(sel)).get_raw()]
+        cnf_obj = tseytin_transformation(c, list(sel))
         sel_idx = list(sel)
+    clauses = [list(x) for x in cnf_obj.get_raw()]
+    # the formula object is the caller's: it goes on to add clauses of its own to it (here: pinning the first inputs
+    # through the public add_clause) - which must stay that object's business
+    try:
+        for v in range(1, min(len(nl['inputs']), 3) + 1):
+            cnf_obj.add_clause([-v])
+        if not nl['inputs']:
+            cnf_obj.add_clause([1, -1])
+    except Exception:  # noqa
+        pass
     n = len(nl['inputs'])
     t = refsem.tables(nl)
     typ = {g[0]: g[1] for g in nl['gates']}
